@@ -76,7 +76,7 @@ def lopt(x: str | None) -> str:
 # ---------------------------------------------------------------------------------------------
 
 
-def canon(v: Any) -> Any:
+def canon(v: Any, r: bool = False) -> Any:
     """A loaded Python value -> the JSON transport form of `CVal` (see Kskm/Ops/PkgF.lean)."""
     import pydantic
 
@@ -88,12 +88,12 @@ def canon(v: Any) -> Any:
         return v
     if isinstance(v, float):
         if v != v or v in (float("inf"), float("-inf")):
-            return {"f": [None, False]}
-        return {"f": [int(v), v == int(v)]}
+            return {"f": [None, False], "r": repr(v)} if r else {"f": [None, False]}
+        return {"f": [int(v), v == int(v)], "r": repr(v)} if r else {"f": [int(v), v == int(v)]}
     if isinstance(v, str):
         return v
     if isinstance(v, enum.Enum):
-        return canon(v.value)
+        return canon(v.value, r)
     if isinstance(v, _dt.timedelta):
         return {"td": td_us(v)}
     if isinstance(v, _dt.datetime):
@@ -106,13 +106,13 @@ def canon(v: Any) -> Any:
     if isinstance(v, Path):
         return str(v)
     if isinstance(v, pydantic.BaseModel):
-        return {"map": [[k, canon(getattr(v, k))] for k in type(v).model_fields]}
+        return {"map": [[k, canon(getattr(v, k), r)] for k in type(v).model_fields]}
     if isinstance(v, Mapping):
-        return {"map": [[canon(k), canon(x)] for k, x in v.items()]}
+        return {"map": [[canon(k, r), canon(x, r)] for k, x in v.items()]}
     if isinstance(v, (list, tuple)):
-        return [canon(x) for x in v]
+        return [canon(x, r) for x in v]
     if isinstance(v, (set, frozenset)):
-        return [canon(x) for x in v]
+        return [canon(x, r) for x in v]
     raise TypeError(f"no canonical form for {type(v).__name__}")
 
 
@@ -353,6 +353,34 @@ def observe_exit_statuses() -> list[tuple[str, int]]:
         shutil.rmtree(scratch, ignore_errors=True)
 
 
+FLAG_READER_FILES = [
+    "src/kskm/ksr/verify_header.py",
+    "src/kskm/ksr/verify_bundles.py",
+    "src/kskm/ksr/verify_policy.py",
+    "src/kskm/signer/verify_chain.py",
+    "src/kskm/signer/policy.py",
+]
+
+
+def flag_readers() -> list[tuple[str, list[str]]]:
+    """for every boolean option of RequestPolicy: the functions (module.function) of the rule files whose body reads
+    `<anything>.<option>` — which check consults which flag, by `ast`"""
+    import ast
+
+    from kskm.common.config_misc import RequestPolicy
+
+    flags = [n for n, f in RequestPolicy.model_fields.items() if f.annotation is bool]
+    readers: dict[str, set[str]] = {f: set() for f in flags}
+    for rel in FLAG_READER_FILES:
+        tree = ast.parse((REPO / rel).read_text())
+        mod = Path(rel).stem
+        for fn in [n for n in ast.walk(tree) if isinstance(n, (ast.FunctionDef, ast.AsyncFunctionDef))]:
+            for node in ast.walk(fn):
+                if isinstance(node, ast.Attribute) and node.attr in readers:
+                    readers[node.attr].add(f"{mod}.{fn.name}")
+    return [(f, sorted(readers[f])) for f in flags]
+
+
 def section() -> list[str]:
     from kskm.common.config import KSKMConfig
 
@@ -373,6 +401,10 @@ def section() -> list[str]:
         for vname, dec in w.models[n].__pydantic_decorators__.field_validators.items():
             rows.append(f"({lstr(n)}, {lstr(vname)}, [{', '.join(lstr(f) for f in dec.info.fields)}])")
     out.append("def configBeforeValidators : List (String × String × List String) := [" + ", ".join(rows) + "]")
+    out.append("/-- which rule function reads which boolean option of RequestPolicy (by `ast`) -/")
+    out.append("def flagReaders : List (String × List String) := [")
+    out.append(",\n".join(f"  ({lstr(f)}, [{', '.join(lstr(x) for x in fs)}])" for f, fs in flag_readers()))
+    out.append("]")
     obs = observe_exit_statuses()
     out.append("/-- exit status of the real ksrsigner.main() (subprocess) per loader outcome, observed now -/")
     out.append("def exitStatusObserved : List (String × Int) := [" + ", ".join(f"({lstr(k)}, {lint(v)})" for k, v in obs) + "]")
